@@ -357,6 +357,42 @@ pub fn window_edge_streams(rng: &mut Rng) -> Vec<(String, Vec<u8>)> {
     v
 }
 
+/// Blocks with more tokens than fit 16 bits (and, once, 20 bits): literal-only fixed Huffman blocks
+/// of 70000 tokens, twice in a row, 100 then 65636 (equal modulo 2^16), and one of 2^20 + 2^16 + 4
+pub fn big_block_streams(rng: &mut Rng, with_million: bool) -> Vec<(String, Vec<u8>)> {
+    let mut v = Vec::new();
+    let mut shapes: Vec<(&str, Vec<usize>)> = vec![("70000", vec![70000]), ("70000+70000+3", vec![70000, 70000, 3]), ("100+65636+5", vec![100, 65636, 5])];
+    if with_million { shapes.push(("2^20+2^16+4", vec![(1 << 20) + (1 << 16) + 4])); }
+    for (name, blocks) in shapes {
+        let total: usize = blocks.iter().sum();
+        let text: Vec<u8> = (0..total).map(|_| b'0' + rng.below(64) as u8).collect();
+        // encode_fixed cuts every block_len tokens; unequal blocks are written one after the other
+        let mut out_bits: Vec<u8> = Vec::new();
+        if blocks.iter().all(|&b| b == blocks[0]) || blocks.len() == 1 {
+            let toks: Vec<(usize, usize)> = (0..total).map(|_| (1, 0)).collect();
+            out_bits = encode_fixed(&text, &toks, blocks[0]);
+        } else {
+            // general case: own bit writer over the pieces
+            let mut acc: u64 = 0; let mut n: u32 = 0;
+            let mut put = |out: &mut Vec<u8>, v: u32, k: u32| { acc |= (v as u64) << n; n += k; while n >= 8 { out.push(acc as u8); acc >>= 8; n -= 8; } };
+            let rev = |c: u32, k: u32| { let mut r = 0; for i in 0..k { r |= ((c >> i) & 1) << (k - 1 - i); } r };
+            let mut at = 0usize;
+            for (bi, &b) in blocks.iter().enumerate() {
+                put(&mut out_bits, if bi + 1 == blocks.len() { 1 } else { 0 }, 1);
+                put(&mut out_bits, 1, 2);
+                for _ in 0..b {
+                    let sym = text[at] as u32; at += 1;
+                    if sym <= 143 { put(&mut out_bits, rev(0x30 + sym, 8), 8); } else { put(&mut out_bits, rev(0x190 + sym - 144, 9), 9); }
+                }
+                put(&mut out_bits, 0, 7);
+            }
+            put(&mut out_bits, 0, 7);
+        }
+        v.push((format!("big-blocks/{}", name), out_bits));
+    }
+    v
+}
+
 /// writes a given LZ77 parse ((length, distance), distance 0 for a literal) of `input` with the
 /// fixed Huffman code, `block_len` tokens per block
 pub fn encode_fixed(input: &[u8], toks: &[(usize, usize)], block_len: usize) -> Vec<u8> {
